@@ -276,11 +276,11 @@ def _cap(ctx, q, b, rnd, model_over):
     cap = _dedupe(ctx.gen("TxPool", "TxPool_gen_cap.cfg", "EDGE", timeout=1500))
     over = [s for s in cap if s["over"]]
     rest = [s for s in cap if not s["over"]]
-    short = [s for s in rest if len(s["steps"]) <= (3 if q else 4)]
-    longer = [s for s in rest if len(s["steps"]) > (3 if q else 4)]
+    short = [s for s in rest if len(s["steps"]) <= (2 if q else 4)]
+    longer = [s for s in rest if len(s["steps"]) > (2 if q else 4)]
     rnd.shuffle(over)
     rnd.shuffle(longer)
-    sel = short + longer[:(40 if q else 600)] + over[:(8 if q else len(over))]
+    sel = short + longer[:(60 if q else 600)] + over[:(8 if q else len(over))]
     scs = [{"steps": s["steps"]} for s in sel]
     return _server(ctx, b, scs, ["0", "1", "1"], "TraceTxPoolSrv_cap", "srv-capacity", expect_over=model_over)
 
